@@ -439,11 +439,14 @@ package bgp
 //@   ensures result1 != nil ==> isMsgErr(result1)
 //@ func ValidateUpdateMsg
 //@   requires m != nil
-//@   claims at-return inv-init inv-keep
+//@   claims at-return at-call inv-init inv-keep
 //@   loop 0 invariant strongestError == nil || isMsgErr(strongestError)
 //@   at-return requires ret0 <==> ret1 == nil
 //@   at-return requires ret1 != nil ==> isMsgErr(ret1)
 //@   at-return requires (ret1 == nil || errClass(ret1) < ERROR_HANDLING_SESSION_RESET) && len(m.NLRI) > 0 ==> called(ValidateUpdateMsg$1)
+// ... and what that check asks for is ORIGIN and AS_PATH, plus NEXT_HOP whenever the UPDATE carries IPv4 unicast NLRI
+//@   at-call exist(mandatory) requires len(mandatory) >= 2 && mandatory[0] == BGP_ATTR_TYPE_ORIGIN && mandatory[1] == BGP_ATTR_TYPE_AS_PATH
+//@   at-call exist(mandatory) requires len(m.NLRI) > 0 ==> len(mandatory) == 3 && mandatory[2] == BGP_ATTR_TYPE_NEXT_HOP
 //@ props C05
 //@ func parseBody
 //@   requires h != nil && len(data) <= 65535
